@@ -37,7 +37,9 @@ Qed.
 Definition KInv (tg : tags) (h : mheap) (k : list handle) : Prop := Forall (fun hd => handle_ok hd tg h) k.
 
 Lemma handle_ok_ext : forall tg h tg' h' hd, Ext tg h tg' h' -> handle_ok hd tg h -> handle_ok hd tg' h'.
-Proof. intros * HE. destruct hd; cbn; auto; [apply fref_ext | apply bslice_ok_ext]; assumption. Qed.
+Proof.
+  intros * HE. destruct hd; cbn; auto; [apply fref_ext | apply bslice_ok_ext | intros H; eapply rdr_at_stable; eauto]; assumption.
+Qed.
 
 Lemma KInv_ext : forall tg h tg' h' k, Ext tg h tg' h' -> KInv tg h k -> KInv tg' h' k.
 Proof. intros * HE. apply Forall_impl. intros; eapply handle_ok_ext; eauto. Qed.
@@ -52,6 +54,7 @@ Proof.
   - destruct r; cbn; auto; try (apply existsb_handle_in in Hk; apply (HK _ Hk)).
     apply orb_true_iff in Hk. destruct Hk as [Hk|Hk]; apply existsb_handle_in in Hk; apply (HK _ Hk).
   - apply existsb_handle_in in Hk. apply (HK _ Hk).
+  - apply existsb_handle_in in Hk. apply (HK _ Hk).
 Qed.
 
 Lemma add_known_ok : forall tg h k hd, KInv tg h k -> handle_ok hd tg h -> KInv tg h (add_known k hd).
@@ -59,6 +62,7 @@ Proof.
   intros * HK Hh. unfold add_known.
   destruct hd; auto.
   - destruct r; auto; destruct (existsb _ k); auto; constructor; auto.
+  - destruct (existsb _ k); auto; constructor; auto.
   - destruct (existsb _ k); auto; constructor; auto.
 Qed.
 
@@ -175,7 +179,8 @@ Section Stable.
     induction fuel; intros ar x [Tx [rd Gx]]; cbn [rd_content]; [reflexivity|].
     destruct (ext_rdr _ _ _ _ _ _ HE Tx Gx) as [rd' [Gx' Eq]].
     destruct (inv_frozen _ _ _ HI Tx) as [c [Gc Fc]]. rewrite Gx in Gc; inversion Gc; subst c.
-    rewrite !exec_rd, Gx, Gx'. destruct rd as [s pos|p ra base off lim], rd' as [s' pos'|p' ra' base' off' lim']; cbn in Eq; try contradiction.
+    rewrite !exec_rd, Gx, Gx'. destruct rd as [s pos|p ra base off lim|src off], rd' as [s' pos'|p' ra' base' off' lim'|src' off']; cbn in Eq; try contradiction;
+      [| |reflexivity].
     - subst s'. apply read_bytes_stable. exact Fc.
     - destruct Eq as (-> & -> & ->). cbn in Fc.
       rewrite !exec_bind.
@@ -287,4 +292,61 @@ Theorem legal_history_invariant : forall cf hs, legalh cf pinit hs = true ->
   exists tg, Inv tg (hp (runh cf pinit hs)) /\ Forall (fun hd => handle_ok hd tg (hp (runh cf pinit hs))) (kn (runh cf pinit hs)).
 Proof.
   intros cf hs Hl. destruct (runh_inv cf hs _ _ sinv_init Hl) as (tg & [I K] & _). eauto.
+Qed.
+
+(* ------------------------------------------------------------------ handed-out readers (cursors) *)
+
+Definition take_k (k : option nat) (l : list N) : list N := match k with None => l | Some n => firstn n l end.
+
+(* what the reader in cell [src] denotes, read from its start *)
+Definition source_content (ps : pstate) (src : addr) : outcome (list N) :=
+  fst (exec (par ps) (rd_content (Nat.pred rd_fuel) src) (hp ps)).
+
+(* A read of a cursor yields exactly the source's content from the cursor's own offset on, and moves
+   only that offset. *)
+Lemma cursor_read_spec : forall cf ps x src off k c,
+  hget (hp ps) x = Some (CRdr (RdCursor src off)) ->
+  source_content ps src = Done c ->
+  snd (pstep cf ps (PReaderRead (HReader x) k)) = RDone (PAcc (XBytes (take_k k (skipn off c)) None)) /\
+  hget (hp (fst (pstep cf ps (PReaderRead (HReader x) k)))) x =
+    Some (CRdr (RdCursor src (off + length (take_k k (skipn off c))))).
+Proof.
+  intros cf ps x src off k c Hx Hc. unfold source_content in Hc.
+  rewrite pstep_exec. cbn [prim_prog]. rewrite exec_bind.
+  change rd_fuel with (S (Nat.pred rd_fuel)). cbn [rd_read].
+  rewrite exec_rd, Hx. rewrite exec_bind.
+  rewrite (exec_wfree_fst _ _ (par ps) (hp ps) (wfree_rd_content (Nat.pred rd_fuel) src)). rewrite Hc.
+  rewrite exec_wr, Hx, !exec_ret. cbn.
+  split; [destruct k; reflexivity|].
+  rewrite hget_hset, addr_eqb_refl, Hx. destruct k; reflexivity.
+Qed.
+
+(* Along a Legal history a handed-out cursor stays a cursor over the same source, and what that source
+   denotes does not change — whatever other readers, accessors and matches did in between. *)
+Theorem reader_independent_partial : forall cf hs1 hs2,
+  legalh cf pinit (hs1 ++ hs2) = true ->
+  forall x src o1,
+  known_b (kn (runh cf pinit hs1)) (HReader x) = true ->
+  hget (hp (runh cf pinit hs1)) x = Some (CRdr (RdCursor src o1)) ->
+  exists o2,
+    hget (hp (runh cf pinit (hs1 ++ hs2))) x = Some (CRdr (RdCursor src o2)) /\
+    source_content (runh cf pinit (hs1 ++ hs2)) src = source_content (runh cf pinit hs1) src /\
+    forall k c, source_content (runh cf pinit (hs1 ++ hs2)) src = Done c ->
+      snd (pstep cf (runh cf pinit (hs1 ++ hs2)) (PReaderRead (HReader x) k))
+        = RDone (PAcc (XBytes (take_k k (skipn o2 c)) None)).
+Proof.
+  intros cf hs1 hs2 Hl x src o1 Hk Hx.
+  destruct (legalh_app _ _ _ _ Hl) as [L1 L2].
+  destruct (runh_inv cf hs1 _ _ sinv_init L1) as (tg1 & [I1 K1] & _).
+  destruct (runh_inv cf hs2 _ _ (conj I1 K1) L2) as (tg2 & [I2 K2] & E2).
+  rewrite runh_app.
+  pose proof (known_ok _ _ _ _ K1 Hk) as [Tx _]. cbn in Tx.
+  destruct (ext_rdr _ _ _ _ _ _ E2 Tx Hx) as (r2 & Hx2 & Eq).
+  destruct r2 as [| |src2 o2]; cbn in Eq; try contradiction. subst src2.
+  exists o2. split; [assumption|].
+  destruct (inv_frozen _ _ _ I1 Tx) as [c0 [Gc Fc]]. rewrite Hx in Gc. inversion Gc; subst c0. cbn in Fc.
+  split.
+  - unfold source_content. rewrite !runh_par. symmetry.
+    apply (rd_content_stable tg1 _ tg2 _ I1 E2). exact Fc.
+  - intros k c Hc. apply (cursor_read_spec cf _ x src o2 k c Hx2 Hc).
 Qed.
